@@ -107,7 +107,7 @@ class Prop(BaseProp):
             b_min = 0 if idx % 80 == 7 else 150          # (every other large module has at least 150 top-level items: > 64 KiB)
         mod = b.module(module_doc=rng.random() < 0.3, module_name=rng.choice(["", "", "modN0Z", "my.mod-N0Z"]))
         if big and b_min and len(mod.items) < b_min:
-            mod.items = mod.items + b.items(0, n=b_min)
+            mod.items = b._fix_dangling(mod.items + b.items(0, n=b_min), 0)
         # leaderless variant for some documented items: unindented, letter-initial lines
         for it in mod.walk():
             if it.doc is not None and it.kind != "dangling" and rng.random() < 0.1:
